@@ -14,6 +14,9 @@ ParamDims == [blk     : {"1k", "2k", "4k"},
               size    : {"min", "one", "multi"}]
 ParamBase == [blk |-> "1k", journal |-> "j", csum |-> "nocsum", extra |-> "", size |-> "one"]
 Deviations(t) == Cardinality({f \in DOMAIN ParamBase : t[f] # ParamBase[f]})
+\* always enumerated, whatever the deviation bound: small groups (many group boundaries) at every block
+\* size - the first data block is 1 with 1 KiB blocks and 0 otherwise, and the two interact
+Always(t) == t.extra = "bpg256nr" /\ t.journal = "nj" /\ t.csum = "nocsum" /\ t.size = "one"
 P_C05_Clean(ev) == ev.fsck = 0
 P_C05_Debugfs(ev) == ev.a = "Debugfs" => ev.dbg
 \* macro calls (Straddle) run the checker between their own steps as well: ev.fsckmid is the worst status seen
